@@ -164,26 +164,29 @@ func errClass(msg string) string {
 }
 
 func template(short string) string {
-	// first words of the message, with literals removed
-	f := strings.Fields(short)
+	// the message up to (and including) the word that announces the offending token
 	var out []string
-	for _, w := range f {
-		if len(out) == 4 {
+	for _, w := range strings.Fields(short) {
+		if len(out) == 6 {
 			break
 		}
-		if strings.ContainsAny(w, "\"'0123456789") {
+		bare := strings.TrimRight(w, ",:")
+		alpha := bare != ""
+		for _, c := range bare {
+			if !(c >= 'a' && c <= 'z') && !(c >= 'A' && c <= 'Z') {
+				alpha = false
+			}
+		}
+		if !alpha && bare != "'in'" && bare != "'continue'" && bare != "'break'" {
 			break
 		}
-		out = append(out, w)
+		out = append(out, bare)
+		switch strings.ToLower(bare) {
+		case "token", "symbol", "identifier", "constant", "argument", "large", "value":
+			return strings.Join(out, " ")
+		}
 	}
-	if len(out) == 0 && len(f) > 0 {
-		out = f[:1]
-	}
-	s := strings.Join(out, " ")
-	if len(s) > 60 {
-		s = s[:60]
-	}
-	return s
+	return strings.Join(out, " ")
 }
 
 func evaluate(p *asp.Parser, data []byte, filename string) (o outcome) {
@@ -294,9 +297,9 @@ func minimise(p *asp.Parser, data []byte, filename, key string) []byte {
 		return evaluate(p, d, filename).Key == key
 	}
 	cur := append([]byte{}, data...)
-	for chunk := len(cur) / 2; chunk >= 1 && evals < 20000; {
+	for chunk := len(cur) / 2; chunk >= 1 && evals < 150000; {
 		removed := false
-		for i := 0; i+chunk <= len(cur) && evals < 20000; {
+		for i := 0; i+chunk <= len(cur) && evals < 150000; {
 			cand := append(append([]byte{}, cur[:i]...), cur[i+chunk:]...)
 			if same(cand) {
 				cur = cand
@@ -305,8 +308,11 @@ func minimise(p *asp.Parser, data []byte, filename, key string) []byte {
 				i += chunk
 			}
 		}
-		if !removed || chunk > len(cur) {
-			chunk /= 2
+		if !removed {
+			if chunk == 1 {
+				break
+			}
+			chunk = (chunk + 1) / 2
 		}
 		if chunk > len(cur) {
 			chunk = len(cur)
@@ -406,7 +412,7 @@ func cpuSeconds() float64 {
 // cpuBudget is the CPU time one small (<=32 KiB) input may consume before the child declares a hang;
 // a normal parse of such an input takes well under 0.1 s, so this is a >1000x margin that does not
 // depend on wall-clock or on machine load.
-const cpuBudget = 150.0
+const cpuBudget = 60.0
 
 func TestC19Child(t *testing.T) {
 	if !lib.IsChild() {
@@ -437,6 +443,11 @@ func runJob(job jobSpec) {
 		distinct[set][member] = true
 	}
 	seenKeys := map[string]bool{}
+	if job.Stream != "depth" {
+		// Inputs of the other streams are at most 32 KiB, so legitimate recursion needs a few MiB of stack;
+		// a lower limit only makes runaway recursion die sooner (the ladder runs at Go's default limit).
+		debug.SetMaxStack(256 << 20)
+	}
 	prog, _ := os.OpenFile(job.Progress, os.O_CREATE|os.O_WRONLY|os.O_TRUNC, 0o644)
 	single := job.To-job.From == 1
 
@@ -550,8 +561,8 @@ func runJob(job jobSpec) {
 			}
 			addDistinct("depth_cases_survived", fmt.Sprintf("%s@%d:%s", dc.Construct, dc.Depth, verdict))
 		}
-		if len(res.Samples) < 2 && i%997 == 3 && len(c.Data) < 600 {
-			res.Samples = append(res.Samples, map[string]any{"stream": job.Stream, "case": i, "input": string(bytes.ToValidUTF8(c.Data, []byte("\uFFFD"))), "ops": c.Ops, "accepted": o.OK, "error_class": o.Template, "pos": o.Pos.String()})
+		if len(res.Samples) < 2 && (i%997 == 3 || job.Stream == "depth" && i%7 == 3) && len(c.Data) < 600 {
+			res.Samples = append(res.Samples, map[string]any{"stream": job.Stream, "case": i, "input": string(bytes.ToValidUTF8(c.Data, []byte("\uFFFD"))), "ops": c.Ops, "accepted": o.OK, "error_class": o.Template, "pos": o.Pos.String(), "violation_key": o.Key})
 		}
 	}
 	for k, s := range distinct {
@@ -591,9 +602,15 @@ type parent struct {
 	ncorpus int
 	jobSeq  atomic.Int64
 
-	mu    sync.Mutex
-	viols map[string][]violRec // per stream
+	mu      sync.Mutex
+	viols   map[string][]violRec // per stream
+	samples map[string][]any
+	deaths  atomic.Int64 // confirmed process deaths / hangs outside the ladder
 }
+
+// maxDeaths bounds how many process-fatal inputs are isolated and confirmed; further abnormal batch ends
+// are only counted (each confirmation can cost a minute of stack growth).
+const maxDeaths = 3
 
 func (p *parent) addViol(stream string, v violRec) {
 	p.mu.Lock()
@@ -625,9 +642,6 @@ func (p *parent) merge(res *batchResult) {
 			p.r.ObsDistinct(k, m)
 		}
 	}
-	for _, s := range res.Samples {
-		p.r.Sample(s)
-	}
 }
 
 var goroutineRunning = regexp.MustCompile(`(?s)goroutine \d+ (?:gp=\S+ m=\S+ (?:mp=\S+ )?)?\[running[^\]]*\]:\n(.*)`)
@@ -656,6 +670,9 @@ func (p *parent) runBatch(stream string, from, to int, input string) {
 		var res batchResult
 		if json.Unmarshal(b, &res) == nil && res.Done {
 			p.merge(&res)
+			p.mu.Lock()
+			p.samples[stream] = append(p.samples[stream], res.Samples...)
+			p.mu.Unlock()
 			for _, v := range res.Viols {
 				p.addViol(stream, v)
 			}
@@ -679,6 +696,10 @@ func (p *parent) runBatch(stream string, from, to int, input string) {
 		p.r.FatalInconclusive(fmt.Sprintf("child for %s[%d,%d) ended (exit %d signal %q timeout %v) before its first case: %s", stream, from, to, cr.Exit, cr.Signal, cr.TimedOut, clip(tail, 1500)))
 		return
 	}
+	if stream != "depth" && p.deaths.Load() >= maxDeaths {
+		p.r.Obs("cases_skipped_after_repeated_process_deaths", int64(to-from))
+		return
+	}
 	if to-from > 1 {
 		p.runBatch(stream, from, last, input)
 		p.runBatch(stream, last, last+1, input)
@@ -686,6 +707,9 @@ func (p *parent) runBatch(stream string, from, to int, input string) {
 		return
 	}
 	// a single case ended its process: classify
+	if stream != "depth" {
+		p.deaths.Add(1)
+	}
 	witness := map[string]any{"exit": cr.Exit, "signal": cr.Signal, "stderr": clip(tail, 6000)}
 	desc := fmt.Sprintf("%s case %d", stream, last)
 	keySuffix := ""
@@ -817,7 +841,7 @@ func TestC19(t *testing.T) {
 	r.Assumes = []string{
 		"ParseData is the parser entry point (ParseFile/ParseReader go through the same parseFileInput)",
 		"the error's dynamic type, its exported Stack field and (through unsafe) its wrapped error are read by reflection because asp's error type is unexported",
-		"a hang is declared only after one <=32 KiB input consumed 150 CPU-seconds in a process of its own; wall-clock limits only ever yield 'inconclusive'",
+		"a hang is declared only after one <=32 KiB input consumed 60 CPU-seconds in a process of its own; wall-clock limits only ever yield 'inconclusive'",
 		"stack overflows are provoked at Go's default stack limit (the same the plz binary runs with)",
 	}
 	repo := os.Getenv("VERIF_REPO_DIR")
@@ -837,7 +861,7 @@ func TestC19(t *testing.T) {
 	corpusPath := filepath.Join(dir, "corpus.json")
 	os.WriteFile(corpusPath, cb, 0o644)
 	r.Obs("seed_corpus_files", int64(len(corpus)))
-	p := &parent{r: r, dir: dir, corpus: corpusPath, ncorpus: len(corpus), viols: map[string][]violRec{}}
+	p := &parent{r: r, dir: dir, corpus: corpusPath, ncorpus: len(corpus), viols: map[string][]violRec{}, samples: map[string][]any{}}
 
 	streams := []struct {
 		name  string
@@ -898,6 +922,13 @@ func TestC19(t *testing.T) {
 	for _, s := range streams {
 		r.ForEach(s.name, 0, 1, func(int, *rand.Rand) {}) // sets the stream recorded in replay files
 		p.flush(s.name)
+	}
+	for _, name := range []string{"mutfuzz", "grammar", "adjacent", "depth"} {
+		for i, smp := range p.samples[name] {
+			if i < 1 || name == "mutfuzz" && i < 2 {
+				r.Sample(smp)
+			}
+		}
 	}
 	r.RequireObserved("accepted", "rejected_with_positioned_error", "parsed/corpus", "parsed/adjacent", "parsed/grammar", "parsed/mutfuzz", "parsed/depth", "error_message_classes", "mutation_operators")
 }
